@@ -104,6 +104,21 @@ Definition self_getattr (h : heap) (a : pystr) : M pyval :=
            | None => lift (obj_getattr h (ref (s2p "self")) a) s
            end.
 
+(* self.m() used as a value: the pure query "m()" of what the class provides; an instance attribute named m
+   would shadow the method (and be called instead): outside the model *)
+Definition self_query (h : heap) (m : pystr) : M pyval :=
+  fun s => match alist_get s m with
+           | Some _ => (s, inr (mk_exc Unmodelled []))
+           | None => lift (obj_getattr h (ref (s2p "self")) (m ++ s2p "()")) s
+           end.
+
+(* hasattr(self, a) *)
+Definition self_hasattr (h : heap) (a : pystr) : M bool :=
+  fun s => match alist_get s a with
+           | Some _ => (s, inl true)
+           | None => lift (obj_hasattr h (ref (s2p "self")) a) s
+           end.
+
 (* self.__dict__[k] = v *)
 Definition self_dict_set (k v : pyval) : M unit :=
   fun s => match k with
